@@ -27,7 +27,7 @@ Theorem Good_step c o : wf_op_all c o -> Good c -> Good (step c o).
 Proof.
   intros [W1 W2] (HA & HI & HW & HR).
   split; [apply Acct_step; assumption|]. split; [apply IdentG_step; assumption|]. split; [apply AllocWf_step_any; exact HW|].
-  apply IdRec_step; [exact W1| |exact HA|exact (proj1 HI)|exact HR].
+  apply IdRec_step; [exact W1|exact W2| |exact HA|exact (proj1 HI)|exact HR].
   intros ch _. apply AllocWf_parts_wf. exact HW.
 Qed.
 
@@ -41,6 +41,23 @@ Definition reachable (c : cell) : Prop :=
   exists dim root level ops, wf_ops_all (init_cell dim root level) ops /\ c = run (init_cell dim root level) ops.
 Lemma reachable_Good c : reachable c -> Good c.
 Proof. intros (dim & root & level & ops & Hwf & ->). apply Good_run; [exact Hwf|apply Good_init]. Qed.
+
+(** histories compose *)
+Lemma wf_ops_all_app ops1 : forall c ops2,
+  wf_ops_all c (ops1 ++ ops2) <-> wf_ops_all c ops1 /\ wf_ops_all (run c ops1) ops2.
+Proof.
+  induction ops1 as [|o r IH]; intros c ops2; cbn [Datatypes.app wf_ops_all run fold_left]; [tauto|].
+  rewrite IH. unfold run. tauto.
+Qed.
+Lemma run_app c ops1 ops2 : run c (ops1 ++ ops2) = run (run c ops1) ops2.
+Proof. unfold run. apply fold_left_app. Qed.
+
+Lemma reachable_run c ops : reachable c -> wf_ops_all c ops -> reachable (run c ops).
+Proof.
+  intros (dim & root & level & ops0 & W0 & ->) W. exists dim, root, level, (ops0 ++ ops). split.
+  - apply wf_ops_all_app. split; assumption.
+  - symmetry. apply run_app.
+Qed.
 
 (** the instance records after a cycle are those before it (no instance is created or dropped by a cycle) *)
 Lemma cycle_same_instances c ch x : app_of (fst (fst (schedule c ch))) x = None <-> app_of c x = None.
@@ -99,13 +116,40 @@ Definition wf_op_idb (c : cell) (o : op) : bool :=
       | Some _ => true
       end
   | OConfigGroup g count => Z.leb 0 count
+  | ORestore sname aname verbatim expires ident =>
+      match get_app aname (c_apps c) with
+      | None => true
+      | Some a =>
+          match ident with
+          | Some i =>
+              Z.leb 0 i &&
+              match a_group a with
+              | Some g => forallb (fun b => Z.eqb (a_name b) aname
+                                            || negb (opt_eqb (a_group b) (Some g) && opt_eqb (a_identity b) (Some i))) (c_apps c)
+              | None => false
+              end
+          | None => match a_group a, a_identity a with Some _, None => false | _, _ => true end
+          end
+      end
   | _ => true
   end.
+Lemma opt_eqb_eq o z : opt_eqb o (Some z) = true <-> o = Some z.
+Proof.
+  destruct o as [y|]; cbn; [rewrite Z.eqb_eq|]; split; intros H; try discriminate; [subst|inversion H]; reflexivity.
+Qed.
 Lemma wf_op_idb_sound c o : wf_op_idb c o = true -> wf_op_id c o.
 Proof.
   destruct o; cbn [wf_op_idb wf_op_id]; try (intros; exact I).
   - intros H E. rewrite E in H. destruct (a_identity a); [discriminate|reflexivity].
   - intros H. apply Z.leb_le. exact H.
+  - destruct ident as [i|].
+    + intros H a Ha. rewrite Ha in H. apply andb_true_iff in H as [H0 H1]. split; [apply Z.leb_le; exact H0|].
+      destruct (a_group a) as [g|]; [|discriminate]. exists g. split; [reflexivity|].
+      intros n2 b Hne Hb [Hh1 Hh2]. rewrite forallb_forall in H1. specialize (H1 b (get_app_In _ _ _ Hb)).
+      rewrite (MapsP.get_app_name _ _ _ Hb) in H1. destruct (Z.eqb_spec n2 aname); [contradiction|]. cbn [orb] in H1.
+      apply negb_true_iff in H1. rewrite (proj2 (opt_eqb_eq _ _) Hh1), (proj2 (opt_eqb_eq _ _) Hh2) in H1. discriminate.
+    + intros H a Ha. rewrite Ha in H. destruct (a_group a); [|left; reflexivity].
+      destruct (a_identity a); [right; discriminate|discriminate].
 Qed.
 Fixpoint wf_ops_allb (c : cell) (ops : list op) : bool :=
   match ops with [] => true | o :: r => wf_opb c o && wf_op_idb c o && wf_ops_allb (step c o) r end.
